@@ -1791,6 +1791,18 @@ func planFor(prop, tier string) (*plan, error) {
 			q := &pg.Parallel{Items: []pg.Item{{Kind: "task", Err: true, Instrument: true}, {Kind: "task", Ctx: true, Instrument: true}}, Conc: "expr", Emitters: "shared3", Instrument: true}
 			ps = append(ps, parProg(q, "INS-shared:par"))
 		}
+		// the no-op emitter next to a live one: the live one still gets everything, scheduler reports included
+		for _, em := range []string{"nopstack", "nop2"} {
+			f := exprConc(pg.Shape("single"))
+			f.Emitters, f.Instrument = em, true
+			f.Tasks[0].Instrument = true
+			ps = append(ps, flowProg(f, "INS-nop:single"))
+			g := exprConc(pg.Shape("chain2"))
+			g.Emitters = em
+			ps = append(ps, flowProg(g, "INS-nop:chain2"))
+			q := &pg.Parallel{Items: []pg.Item{{Kind: "task", Err: true, Instrument: true}}, Conc: "expr", Emitters: em, Instrument: true}
+			ps = append(ps, parProg(q, "INS-nop:par"))
+		}
 		{
 			f := exprConc(pg.Shape("single"))
 			f.Emitters = "prestack"
@@ -1875,7 +1887,7 @@ func planFor(prop, tier string) (*plan, error) {
 				sc.PanicKind = "error"
 				out = append(out, sc)
 			}
-			if p.Fam == "INS:single" {
+			if p.Fam == "INS:single" || strings.HasPrefix(p.Fam, "INS-nop:") {
 				sc := base(p, 1)
 				sc.Ticks = 1
 				out = append(out, sc)
